@@ -41,7 +41,15 @@ def main():
         rc0, out0 = sh(run_demo, timeout=1800)
         meta["ran"].append({"cmd": "demo.py on unchanged tree", "exit": rc0, "tail": out0.strip().splitlines()[-1:]})
         rca, outa = sh(f"git -C {wt} apply {patch}")
-        meta["ran"].append({"cmd": "git apply patch.diff", "exit": rca, "out": outa[-300:]})
+        rebased = None
+        if rca != 0:
+            # the change was written against an earlier commit of /repo: apply with fuzz and re-diff
+            rca, outa2 = sh(f"patch -p1 -f -d {wt} -i {patch}")
+            outa = outa + " | patch -p1: " + outa2
+            if rca == 0:
+                sh(f"find {wt} -name '*.orig' -delete")
+                _, rebased = sh(f"git -C {wt} diff")
+        meta["ran"].append({"cmd": "git apply patch.diff (or patch -p1 with fuzz, re-diffed against the current HEAD)", "exit": rca, "out": outa[-300:]})
         rc1, out1 = sh(run_demo, timeout=1800)
         meta["ran"].append({"cmd": "demo.py with the change", "exit": rc1, "tail": out1.strip().splitlines()[-1:]})
         suite_ok = None
@@ -57,7 +65,11 @@ def main():
         notes = src / "notes.md"
         dst = ROOT / "seeded" / name
         dst.mkdir(parents=True, exist_ok=True)
-        shutil.copy(patch, dst / "patch.diff")
+        if rebased:
+            (dst / "patch.diff").write_text(rebased)
+            shutil.copy(patch, dst / "patch.original.diff")
+        else:
+            shutil.copy(patch, dst / "patch.diff")
         shutil.copy(demo, dst / "demo.py")
         if notes.exists():
             shutil.copy(notes, dst / "notes.md")
